@@ -235,7 +235,7 @@ Proof.
     destruct (cop_run s c) as [s' evs]; cbn in *.
     apply rets_delivered in Hq. destruct Hq as [-> ->]. destruct Hf as [Hp _].
     split; [reflexivity|]. cbn. congruence. }
-  destruct o as [tok| | |raw wout|ev]; cbn [op_run]; try apply Hcop.
+  destruct o as [tok| | |raw wout|ev|]; cbn [op_run]; try apply Hcop.
   - unfold run_once. pose proof (io_poll_exact E s raw wout) as H.
     destruct (io_poll E s raw wout) as [s1 e1]. destruct H as [Hd Hch].
     destruct (closing s1 && negb (closed s1)).
@@ -246,6 +246,7 @@ Proof.
   - unfold io_event. destruct (closing s); [split; reflexivity|].
     pose proof (stream_io_exact E s ev) as H.
     destruct (stream_io E s ev) as [s1 e1]. exact H.
+  - split; reflexivity.
 Qed.
 
 Lemma exec_exact E s os :
@@ -619,7 +620,7 @@ Lemma op_run_A E s m o :
   RelA true s m ->
   exists m', runA m (snd (op_run E s o)) = Some m' /\ RelA true (fst (op_run E s o)) m'.
 Proof.
-  intros H. destruct o as [tok| | |raw wout|ev]; cbn [op_run]; try (apply cop_run_A; assumption).
+  intros H. destruct o as [tok| | |raw wout|ev|]; cbn [op_run]; try (apply cop_run_A; assumption).
   - unfold run_once.
     destruct (io_poll_A E s m raw wout H) as (m1 & Hr1 & H1).
     destruct (io_poll E s raw wout) as [s1 e1]; cbn in *.
@@ -633,6 +634,7 @@ Proof.
     destruct (stream_io_A E s m ev H) as (m1 & Hr1 & H1).
     destruct (stream_io E s ev) as [s1 e1]; cbn in *.
     exists m1. split; assumption.
+  - exists m. split; [reflexivity|assumption].
 Qed.
 
 Lemma exec_A E s m os :
@@ -1083,7 +1085,7 @@ Proof.
     destruct (cop_run s c) as [s' evs]; cbn in *.
     destruct (rets_B strict m evs Hq) as [_ He]. destruct Hf as (_ & Hor & _ & _ & _ & _ & Hpp).
     split; [assumption|]. rewrite Hor. split; assumption. }
-  destruct o as [tok| | |raw wout|ev]; cbn [op_run]; try apply Hcop.
+  destruct o as [tok| | |raw wout|ev|]; cbn [op_run]; try apply Hcop.
   - unfold run_once.
     pose proof (io_poll_B strict E s (mkB (has raw POLLHUP) (k_fin m)) raw wout Hsp Ho eq_refl) as H.
     destruct (io_poll E s raw wout) as [s1 e1]. destruct H as (He & _ & _ & Ho1 & Hq1).
@@ -1095,6 +1097,7 @@ Proof.
     pose proof (stream_io_B strict E s (mkB (has ev POLLHUP) (k_fin m)) ev Hsp Ho eq_refl) as H.
     destruct (stream_io E s ev) as [s1 e1]. destruct H as (He & _ & _ & Ho1 & Hq1).
     cbn [eof_ok kstep]. split; [|split; assumption]. split; [exact I|assumption].
+  - cbn. auto.
 Qed.
 
 Lemma exec_B strict E os : forall s m,
@@ -1314,7 +1317,7 @@ Theorem budget E s o : (nallocs (snd (op_run E s o)) <= 32)%nat.
 Proof.
   assert (Hcop : forall c, (nallocs (snd (cop_run s c)) <= 32)%nat).
   { intros c. rewrite (rets_no_alloc _ (cop_run_rets s c)). lia. }
-  destruct o as [tok| | |raw wout|ev]; cbn [op_run]; try apply Hcop.
+  destruct o as [tok| | |raw wout|ev|]; cbn [op_run]; try apply Hcop.
   - unfold run_once.
     assert (H : (nallocs (snd (io_poll E s raw wout)) <= 32)%nat).
     { unfold io_poll.
@@ -1331,6 +1334,7 @@ Proof.
     pose proof (stream_io_budget E s ev) as H.
     destruct (stream_io E s ev) as [s1 e1]; cbn [snd] in *.
     change (EPoll ev :: e1) with ([EPoll ev] ++ e1). rewrite nallocs_app. cbn. lia.
+  - cbn. lia.
 Qed.
 
 (* item 20 on the repaired code: the same kernel answers on an IPC pipe now give
